@@ -316,6 +316,105 @@ func multisets(vals []int, n int) [][]int {
 	return out
 }
 
+// c15Vanishing: while the server takes its picture of the directory, the host removes
+// one entry, at the worst moment: after the names were read and before the entry is
+// examined (the seam is vs.Readdir, which does what package os does). Whichever entry
+// that is, every other entry -- there the whole time -- is listed exactly once.
+func c15Vanishing(n int, ks []int, msize uint32, dotu bool) Scenario {
+	name := fmt.Sprintf("dirread %d-entries, one vanishes while being listed (positions %v) msize=%d dotu=%v", n, ks, msize, dotu)
+	return Scenario{Name: name, Run: func(rc *RunCtx) *Result {
+		res := &Result{Exhaustive: true}
+		base, root := scratchDir("c15v")
+		defer os.RemoveAll(base)
+		var lens []int
+		for i := 0; i < n; i++ {
+			lens = append(lens, 3+(i*7)%40)
+		}
+		seen := map[string]bool{}
+		fail := func(sig, msg string) {
+			if !seen[sig] && len(res.Findings) < 8 {
+				seen[sig] = true
+				res.Findings = append(res.Findings, Finding{Sig: "C15/" + sig, Msg: fmt.Sprintf("%s (directory of %d entries, msize %d, dotu %v)", msg, n, msize, dotu)})
+			}
+		}
+		defer func() { vs.ReaddirHook = nil }()
+		for _, k := range ks {
+			if rc.Expired() {
+				res.Exhaustive = false
+				res.CapHit = "internal deadline"
+				break
+			}
+			want := c15MakeDir(root, lens)
+			gone := ""
+			calls := 0
+			vs.ReaddirHook = func(dir, nm string) {
+				if filepath.Base(dir) != "dir" {
+					return
+				}
+				if calls == k {
+					gone = nm
+					os.Remove(filepath.Join(dir, nm))
+				}
+				calls++
+			}
+			body := func() {
+				h := newUfsH(root, msize, dotu)
+				cl := h.Connect()
+				ver := "9P2000"
+				if dotu {
+					ver = "9P2000.u"
+				}
+				cl.Version(msize, ver)
+				cl.Rpc(tattach(1, 0, wire.NOFID, "", uint32(os.Geteuid()), dotu))
+				if r := cl.Rpc(twalk(2, 0, 1, "dir")); r == nil || r.Type != wire.Rwalk {
+					fail("setup", "cannot walk to the directory")
+					return
+				}
+				if r := cl.Rpc(&wire.Msg{Type: wire.Topen, Tag: 3, Fid: 1, Mode: 0}); r == nil || r.Type != wire.Ropen {
+					fail("setup", "cannot open the directory")
+					return
+				}
+				names, _, bad := c15List(cl, dotu, 1, msize-24, 10)
+				res.Evals++
+				if bad != "" {
+					fail("vanishing/listing/"+sigWords(bad), fmt.Sprintf("entry %q removed by the host while it was being listed (position %d): %s", gone, k, bad))
+					return
+				}
+				mult := map[string]int{}
+				for _, nm := range names {
+					mult[nm]++
+				}
+				var missing, repeated []string
+				for _, w := range want {
+					switch {
+					case w == gone:
+					case mult[w] == 0:
+						missing = append(missing, w)
+					case mult[w] > 1:
+						repeated = append(repeated, w)
+					}
+				}
+				if len(missing)+len(repeated) > 0 {
+					if len(missing) > 5 {
+						missing = append(missing[:5], "...")
+					}
+					fail("vanishing/entries-not-exactly-once", fmt.Sprintf("the host removed entry %q (position %d of the host's order) while the directory was being read; of the %d entries that were there the whole time, %d were listed; missing %v, repeated %v", gone, k, len(want)-1, len(names), missing, repeated))
+				}
+			}
+			x := vs.Run(nil, body, vs.Options{Horizon: 100000000})
+			if len(x.Panics) > 0 {
+				fail("panic/"+x.Panics[0].Frame, "panic: "+x.Panics[0].Value)
+			}
+			if gone == "" && k < n {
+				fail("vanishing/seam-not-reached", fmt.Sprintf("the directory read did not go through the Readdir seam (%d calls)", calls))
+			}
+		}
+		res.Nontrivial = res.Evals
+		res.Samples = append(res.Samples, fmt.Sprintf("%d entries, removal at positions %v of the host's order", n, ks))
+		return res
+	}}
+}
+
 func c15Scenarios(tier string) []Scenario {
 	var out []Scenario
 	lens := []int{1, 2, 17, 255}
@@ -348,6 +447,18 @@ func c15Scenarios(tier string) []Scenario {
 		return l
 	}
 	out = append(out, c15Scenario(big(50), 4120, true), c15Scenario(big(50), 512, false))
+	all := func(n int) []int {
+		var l []int
+		for i := 0; i < n; i++ {
+			l = append(l, i)
+		}
+		return l
+	}
+	out = append(out, c15Vanishing(3, all(3), 512, true), c15Vanishing(40, all(40), 4120, false))
+	out = append(out, c15Vanishing(1030, []int{0, 1, 511, 1022, 1023, 1024, 1029}, 8216, true), c15Vanishing(2050, []int{5, 1023, 1024, 2047, 2048, 2049}, 65560, false))
+	if tier == "thorough" {
+		out = append(out, c15Vanishing(300, all(300), 4120, true), c15Vanishing(4100, []int{0, 1023, 1024, 2047, 3000, 4095, 4096, 4099}, 65560, true))
+	}
 	if tier == "thorough" {
 		out = append(out, c15Scenario(big(3000), 65560, true), c15Scenario(big(3000), 4120, false))
 	} else {
@@ -359,7 +470,7 @@ func c15Scenarios(tier string) []Scenario {
 func init() {
 	register(&Property{ID: "C15", Level: "exploration",
 		Technique: "bounded-exhaustive enumeration of directory shapes and read counts against the real Ufs, replies decoded record by record with the independent codec and compared with os.ReadDir",
-		Rule:      "directories with 0..3 (thorough 5) entries whose name lengths are every multiset over {1,2,17,255}, plus 50-, 400- (thorough 3000-) entry directories; msize {512,4120} (thorough + 360, 65560), both dialects; for each: every count from the largest entry size to the listing size + 1 read by the offset rule to the zero-length reply, short counts at every record boundary, restart at offset 0 after every prefix, and after an entry was created / removed with the directory's mtime put back (coarse timestamps), File.Readdir(0). non-trivial = complete listings / reads compared",
+		Rule:      "directories with 0..3 (thorough 5) entries whose name lengths are every multiset over {1,2,17,255}, plus 50-, 400- (thorough 3000-) entry directories; msize {512,4120} (thorough + 360, 65560), both dialects; for each: every count from the largest entry size to the listing size + 1 read by the offset rule to the zero-length reply, short counts at every record boundary, restart at offset 0 after every prefix, and after an entry was created / removed with the directory's mtime put back (coarse timestamps), File.Readdir(0); one entry removed by the host while the server lists the directory (between the names being read and the entry being examined, at every position for small directories and around multiples of 1024 for directories of 1030..4100 entries): all the others listed exactly once. non-trivial = complete listings / reads compared",
 		Assumptions: []string{"the host file system and package os are the reference; a directory is skipped at an msize that cannot carry its largest entry"},
 		Scenarios:   c15Scenarios, QuickS: 100, ThoroughS: 900})
 }
